@@ -24,7 +24,7 @@ package zkmulstar
 //@ func (*Proof).Verify
 //@   use bits
 //@   nopanic[C10]
-//@   modifies hstate(hash)
+//@   modifies hstate(hash), wlog(hash.h)
 //@   requires group != nil && hash != nil && hash.h != nil && true && true && public.X != nil && pkok(public.Verifier) && pkvals(public.Verifier) && pkbig(public.Verifier) && pedok(public.Aux) && (p != nil ==> shaped(p))
 
 //@ func challenge
